@@ -24,7 +24,7 @@ ASSUMPTIONS = {}
 EXTRA_CHECKS = {}
 
 
-def _bounded_df(pid):
+def _bounded(pid, script='df_enum.py', what='real accumulator vs pandas on the concatenated prefix disagree'):
     """BOUNDED stand-in next to the proofs of the dataframe properties: the real accumulators with real pandas over an
     enumerated space (bounded/df_enum.py).  Reported under coverage.bounded, never counted in obligations/discharged;
     a mismatch is a violation with the concrete failing input."""
@@ -33,15 +33,15 @@ def _bounded_df(pid):
         here = os.path.dirname(os.path.dirname(os.path.abspath(__file__)))
         repo = os.environ.get('VERIF_REPO', '/repo')
         try:
-            p = subprocess.run(['/venv/bin/python', os.path.join(here, 'bounded', 'df_enum.py'), pid, tier, str(seed), repo],
+            p = subprocess.run(['/venv/bin/python', os.path.join(here, 'bounded', script), pid, tier, str(seed), repo],
                                capture_output=True, text=True, timeout=3000)
             d = json.loads(p.stdout)
         except Exception as e:
-            return {'coverage': {'bounded': {'error': repr(e)}}, 'violations': [], 'errors': ['bounded dataframe enumeration failed: %r' % (e,)]}
+            return {'coverage': {'bounded': {'error': repr(e)}}, 'violations': [], 'errors': ['bounded enumeration %s failed: %r' % (script, e)]}
         viol = []
         for f in d['failures']:
             viol.append({'name': 'bounded/%s' % f.get('op', '?'), 'input': f,
-                         'detail': 'real accumulator vs pandas on the concatenated prefix disagree'})
+                         'detail': what})
         return {'coverage': {'bounded': {'label': 'BOUNDED (not proof)', 'space': d['space'], 'cases': d['cases'],
                                          'distinct_cases': d['distinct'], 'operations': d['ops'], 'failures': len(d['failures']),
                                          'samples': d['samples']}},
@@ -50,4 +50,5 @@ def _bounded_df(pid):
 
 
 for _pid in ('C06', 'C07', 'C11'):
-    EXTRA_CHECKS[_pid] = [_bounded_df(_pid)]
+    EXTRA_CHECKS[_pid] = [_bounded(_pid)]
+EXTRA_CHECKS['C01'] = [_bounded('C01', 'pure_enum.py', 'the real helper disagrees with its list-level meaning on this concrete input')]
